@@ -5,19 +5,24 @@ from ..common import seed_rng
 from ..meshgen import INITIAL_GRIDS, Batch, enumerate_histories, random_op, op_json, deep_histories
 from ..meshlib import oracle_mesh, PyMesh
 
-PROP_MODS = ['Stbem.Props.C10']
+from . import C10H
+
+PROP_MODS = ['Stbem.Props.C10', 'Stbem.Props.C10H']
 RULE = ('the neighbour lists Edge.neighbour_elements() of every side of every leaf (ids in the order returned) and '
         'the boundary / seam flags are part of the state dump that is compared with the Lean model after every '
         'operation (exhaustive bounded bisection sequences + random histories, open and glued); the search evaluates '
         'an independent geometric neighbour computation on the real mesh after every operation. non-trivial = state '
-        'with at least one hanging node (a side with two neighbours); distinct = distinct (initial mesh, history).')
+        'with at least one hanging node (a side with two neighbours); distinct = distinct (initial mesh, history). '
+        'H-layer: ' + C10H.RULE)
 TRUSTED = [
     'Lean 4.33 kernel; axioms propext, Classical.choice, Quot.sound only',
-    'in the model the neighbour list is defined geometrically; that Edge.neighbour_elements() (own / neighbour / '
-    'parent edge lookup through the half-edge pointers) computes this relation is established by correspondence on '
-    'every explored state, not by proof (H-layer refinement theorem not done)',
+    'in the A-layer model the neighbour list is defined geometrically; that Edge.neighbour_elements() (own / neighbour '
+    '/ parent edge lookup through the half-edge pointers) computes this relation is PROVED for the H-layer model '
+    '(Stbem.Props.C10H neighbourElements_eq_nbrs + refinement_theorem + history_commutes + init_hall: every state '
+    'reached from Mesh.__init__ by refine_axis / refine satisfies the pointer invariant and abstracts to the A-layer '
+    'state), and the H-layer model is tied to src/mesh.py by the state + pointer dump correspondence',
     'harness/meshlib.py dump + oracle, Driver/MeshCmd.lean',
-]
+] + C10H.TRUSTED[1:]
 ASSUMPTIONS = ['exact rational coordinates']
 
 
@@ -61,9 +66,15 @@ def correspond(res, tier):
     res.notes['model_lines'] = len(batch.lines)
     if dis is not None:
         res.broken_obligation('correspondence C10: neighbour lists / flags of model and src/mesh.py differ', repr(dis)[:6000])
+    # H-layer: the pointer structure itself, in lock-step (state dump, A-layer dump of abs, pointer facts)
+    a_lines = res.notes.get('model_lines', 0)
+    C10H.correspond(res, tier)
+    res.notes['h_layer_model_lines'] = res.notes.get('model_lines', 0)
+    res.notes['model_lines'] = a_lines
 
 
 def search(res, tier, boost=False):
+    C10H.search(res, tier, boost)   # pointer invariant (cases a-d) on the real objects against geometry
     rng = seed_rng(res.seed, 'C10s')
     # deep refinement towards a point (binary64 coordinates, depth 22 / 30): tolerance-based pairing would break here
     for glue, X, T, run in deep_histories(rng, 10 if tier == 'quick' else 60, 22 if tier == 'quick' else 30):
